@@ -47,7 +47,8 @@ func (a *afPacketSource) SetReadDeadline(t time.Time) error {
 // Read reads a packet (starting with the IP frame)
 func (a *afPacketSource) Read(buf []byte) (int, error) {
 	var payload []byte
-	for payload == nil {
+	// an empty payload (not an IP frame, or an ethernet header with nothing behind it) is not a packet: keep reading
+	for len(payload) == 0 {
 		n, err := a.sock.Read(buf)
 		if err != nil {
 			return n, err
